@@ -343,13 +343,13 @@ pub fn run(report: &Report) {
         sync_steps::<U64U128>(report, &boundary_values(128, 0, w), &boundary_values(128, 64, w), &pairs_alphabet::<U64U128>(), "boundary x boundary");
     }
     // S = 2W and S = 4W with 8-bit words: every carry situation within depth 6
-    explore::<U8U16>(report, &range_alphabet12::<U8U16>(), if q { 5 } else { 7 }, "a12@P8");
-    explore::<U8U32>(report, &range_alphabet12::<U8U32>(), if q { 5 } else { 7 }, "a12@P8");
+    explore::<U8U16>(report, &range_alphabet12::<U8U16>(), if q { 6 } else { 7 }, "a12@P8");
+    explore::<U8U32>(report, &range_alphabet12::<U8U32>(), if q { 6 } else { 7 }, "a12@P8");
     explore::<U8U16>(report, &small_alphabet::<U8U16>(), if q { 5 } else { 6 }, "mixed-precision-14");
     explore::<U8U32>(report, &small_alphabet::<U8U32>(), if q { 4 } else { 6 }, "mixed-precision-14");
     explore::<U8U16>(report, &pairs_alphabet::<U8U16>(), if q { 3 } else { 4 }, "all-pairs P<=3 + extremes");
-    explore::<U8U64>(report, &range_alphabet12::<U8U64>(), if q { 4 } else { 6 }, "a12@P8");
-    explore::<U16U32>(report, &range_alphabet12::<U16U32>(), if q { 4 } else { 5 }, "a12@P16");
+    explore::<U8U64>(report, &range_alphabet12::<U8U64>(), if q { 5 } else { 6 }, "a12@P8");
+    explore::<U16U32>(report, &range_alphabet12::<U16U32>(), if q { 5 } else { 6 }, "a12@P16");
     explore::<U16U32>(report, &small_alphabet::<U16U32>(), if q { 3 } else { 5 }, "mixed-precision-14");
     explore::<U16U64>(report, &range_alphabet12::<U16U64>(), if q { 3 } else { 5 }, "a12@P16");
     explore::<U32U64>(report, &range_alphabet12::<U32U64>(), if q { 3 } else { 5 }, "a12@P32");
